@@ -872,5 +872,5 @@ PARTS = [
     Part('seq12', 'enum', judge_seq, items=items_seq12, exhaustive=True),
     Part('seq20', 'enum', judge_seq, items=items_seq20, exhaustive=True),
     Part('nested_debug', 'enum', judge_nested, items=items_nested, exhaustive=True),
-    Part('random', 'hyp', judge_random, strategy=strat_random, budget={'quick': 500, 'thorough': 10000}),
+    Part('random', 'hyp', judge_random, strategy=strat_random, budget={'quick': 500, 'thorough': 8000}),
 ]
